@@ -32,6 +32,10 @@ CHECKS = {
          "Exploration: 2400 generated UFOs with kerning and mark/cursive anchors, with and without languagesystem statements; for every language system reaching generated kern/dist, every generated mark/mkmk/curs/abvm/blwm lookup covering a glyph of that script must be reachable too. The known defect (scripts registered only by the kern writer) is listed as a finding; any other unreachable feature is a violation.",
          "Trusts fontTools' GPOS reader and unicodedata script data; script membership closed over the generated GSUB rules.",
          "DESIGN.md section 5 C20, section 6"),
+ "C04": ("runtime monitoring: recomputation oracle over compiled and reloaded tables (raw hmtx/vmtx decoding, own Bezier extrema), byte comparison of save/reload/save, enumerated advance sequences",
+         "Exploration with an enumerated sub-space: all 363 advance sequences of length<=5 over {0,300,700} x TTF/OTF plus ~900 random UFOs; the compiled TTFont is judged twice - ufo2ft's own values before saving (fontTools recomputes hhea/head/OS2/numberOfHMetrics on save) and the reloaded font - against bearings, boxes, aggregates, long-metric counts, VORG, maxp, post names and OS/2 indices recomputed from the stored glyph data; save -> reload -> save (lazy and with every table decompiled) must be byte-identical.",
+         "Trusts fontTools' readers (hmtx/vmtx also decoded from raw bytes); CFF tolerances per DESIGN 4.6 as corrected (nearest-integer bearings, outward-rounded aggregates on save); SOURCE_DATE_EPOCH pinned.",
+         "DESIGN.md section 5 C04, 4.6"),
 }
 
 NOT_APPLICABLE = [
